@@ -272,6 +272,19 @@ def mk_partial(prog, shape, side=""):
 
     class Pol(Policy):
         def parse_next(pself, interp, p, inp, info):
+            while p.kind in ("context", "cut_err"):
+                p = p.args[0]
+            if p.kind == "map":
+                # `Parser::map(inner, f)`: the inner parser is answered as below, f is interpreted
+                r = pself.parse_next(interp, p.args[0], inp, info)
+                if not (isinstance(r, Adt) and r.name == "std::result::Result" and r.variant == 0):
+                    return r
+                return ok(interp.call_value(p.extra, [r.fields[0]]))
+            if p.kind == "ref" and p.extra not in interp.overrides and prog.has_body(p.extra):
+                # a helper parser function of the crate (e.g. a split-off first phase): interpreted
+                return interp.call_key(p.extra, [inp])
+            if p.kind == "ref" and p.extra in interp.overrides:
+                return interp.call_key(p.extra, [inp])
             if p.kind == "opt":
                 inner = gram.strip(p.args[0])
                 if inner.kind == "lit":
